@@ -64,7 +64,8 @@ def execute(c):
         if c["windowed"]:
             kw["use_windowed_writes"] = True
         if c["icomp"]:
-            kw["intermediate_compression"] = True
+            # the intermediate compression may be switched on, named, or given as creation options
+            kw["intermediate_compression"] = [True, "deflate", {"compress": "zstd", "zstd_level": 1}][(c["h"] + c["w"] + c["ns"] + len(c["dtype"])) % 3]
         data = None
         try:
             import warnings
